@@ -53,7 +53,8 @@ type c20World struct {
 	w     *l2World
 	r     *core.Run
 	nodes []*c20Node
-	free  lanes.FreeLaneMatchHandler // one handler instance for the node's lifetime, as an application has
+	// the match handlers are built once, when the application wires its lanes, and live as long as the node
+	freeMatch, sysMatch func(ctx sdk.Context, tx sdk.Tx) bool
 }
 
 func ratOf(s string) *big.Rat {
@@ -87,7 +88,8 @@ func newC20(r *core.Run) *c20World {
 	c := &c20World{r: r}
 	c.w = newL2World(r, p)
 	c.nodes = append(c.nodes, &c20Node{n: c.w.n, db: c.w.db, prices: np, checkSeq: 1})
-	c.free = lanes.NewFreeLaneMatchHandler(authcodec.NewBech32Codec(sdk.GetConfig().GetBech32AccountAddrPrefix()), c.w.n.OK)
+	c.freeMatch = lanes.NewFreeLaneMatchHandler(authcodec.NewBech32Codec(sdk.GetConfig().GetBech32AccountAddrPrefix()), c.w.n.OK).MatchHandler()
+	c.sysMatch = lanes.SystemLaneMatchHandler()
 	extra := 1 + r.Intn(2)
 	for i := 0; i < extra; i++ {
 		pp, ps := genPrices(r)
@@ -419,7 +421,7 @@ func (c *c20World) checkLanes() *core.Violation {
 	if err != nil {
 		panic(err)
 	}
-	gotSys := lanes.SystemLaneMatchHandler()(ctx, tx)
+	gotSys := c.sysMatch(ctx, tx)
 	if gotSys != sh.sys {
 		return w.fail(mismatch{"lane.system", "system-lane-shape:" + sh.name, own, fmt.Sprintf("system lane match for %s = %v, want %v", sh.name, gotSys, sh.sys)})
 	}
@@ -439,7 +441,7 @@ func (c *c20World) checkLanes() *core.Violation {
 			wantFree = true
 		}
 	}
-	gotFree := c.free.MatchHandler()(ctx, tx)
+	gotFree := c.freeMatch(ctx, tx)
 	if gotFree != wantFree {
 		return w.fail(mismatch{"lane.free", "free-lane-whitelist", own, fmt.Sprintf("free lane match = %v, want %v (payer %s granter %s whitelist %v)", gotFree, wantFree, feePayer, granter, w.m.Params.FeeWhitelist)})
 	}
